@@ -959,6 +959,9 @@ pub fn format_function_call(
     function_call: &FunctionCall,
     shape: Shape,
 ) -> FunctionCall {
+    #[cfg(stylua_verif)]
+    crate::verif::FUNCTION_CALLS.with(|c| c.set(c.get() + 1));
+
     let formatted_prefix = format_prefix(ctx, function_call.prefix(), shape);
 
     let num_suffixes = function_call.suffixes().count();
